@@ -80,6 +80,8 @@ type Env struct {
 	offsets *[]string
 	depth   int
 	pkg     *types.Package
+	params  map[string]Val // entry values of parameters, for old(p)
+	curKey  string
 }
 
 func (env *Env) child() *Env {
@@ -405,6 +407,7 @@ func (env *Env) eval(x ast.Expr) Val {
 		if _, _, isInt := intInfo(idx.T); isInt {
 			idx = e.convert(idx, types.Typ[types.Int])
 		}
+		env.curKey = env.baseKey(base)
 		env.noteOffset(x.Index, env.baseOff(base))
 		return env.indexVal(base, idx, x)
 	case *ast.UnaryExpr:
@@ -481,6 +484,30 @@ func (env *Env) baseOff(base Val) string {
 	return env.e.idxLit(0)
 }
 
+// baseKey: the array a read of base goes to, as an instantiation key.
+func (env *Env) baseKey(base Val) string {
+	switch base.T.Underlying().(type) {
+	case *types.Slice, *types.Pointer:
+		return base.C[0]
+	case *types.Basic:
+		return base.C[0]
+	}
+	return arrKey(base.C[0])
+}
+
+// arrKey: canonical key of an array term: the region/owner of a two-level
+// select, or the symbol itself.
+func arrKey(arr string) string {
+	if strings.HasPrefix(arr, "(select ") {
+		ns := parseSexps(arr)
+		if len(ns) == 1 && len(ns[0].kids) == 3 {
+			k := ns[0].kids[2]
+			return arr[k.s:k.e]
+		}
+	}
+	return arr
+}
+
 func (env *Env) noteOffset(idx ast.Expr, baseOff string) {
 	if env.offsets == nil || len(env.bound) == 0 {
 		return
@@ -510,7 +537,7 @@ func (env *Env) noteOffset(idx ast.Expr, baseOff string) {
 		return found
 	}
 	zero := baseOff
-	add := func(o string) { *env.offsets = appendUniq(*env.offsets, o) }
+	add := func(o string) { *env.offsets = appendUniq(*env.offsets, env.curKey+"\x00"+o) }
 	if isBound(idx) {
 		add(zero)
 		return
@@ -716,6 +743,11 @@ func (env *Env) evalCall(x *ast.CallExpr) Val {
 	if id, ok := x.Fun.(*ast.Ident); ok {
 		switch id.Name {
 		case "old":
+			if pid, ok := x.Args[0].(*ast.Ident); ok && env.params != nil {
+				if pv, ok := env.params[pid.Name]; ok {
+					return pv
+				}
+			}
 			n := *env
 			if env.old != nil {
 				n.st = env.old
@@ -763,6 +795,8 @@ func (env *Env) evalCall(x *ast.CallExpr) Val {
 				r.C = append(r.C, ite(c.C[0], a.C[i], b.C[i]))
 			}
 			return r
+		case "alloc":
+			return Val{T: types.Typ[types.UnsafePointer], C: []string{env.st.Alloc}}
 		case "region":
 			v := env.eval(x.Args[0])
 			return Val{T: types.Typ[types.UnsafePointer], C: []string{v.C[0]}}
@@ -797,6 +831,7 @@ func (env *Env) evalCall(x *ast.CallExpr) Val {
 		case "bytesAt":
 			// bytesAt(s, i) : byte i of string or slice
 			bb := env.eval(x.Args[0])
+			env.curKey = env.baseKey(bb)
 			env.noteOffset(x.Args[1], env.baseOff(bb))
 			return env.indexVal(bb, env.evalAs(x.Args[1], types.Typ[types.Int]), x)
 		case "b2i":
